@@ -332,7 +332,7 @@ def to_numpy(array, allow_missing=True):
         if array.numfields == 0:
             return numpy.empty(len(array), dtype=[])
         contents = [
-            to_numpy(array.field(i), allow_missing=allow_missing)
+            to_numpy(array.field(i)[: len(array)], allow_missing=allow_missing)
             for i in range(array.numfields)
         ]
         if any(len(x.shape) != 1 for x in contents):
@@ -341,7 +341,7 @@ def to_numpy(array, allow_missing=True):
                 + ak._util.exception_suffix(__file__)
             )
         out = numpy.empty(
-            len(contents[0]),
+            len(array),
             dtype=[(str(n), x.dtype) for n, x in zip(array.keys(), contents)],
         )
         for n, x in zip(array.keys(), contents):
@@ -5290,7 +5290,11 @@ or
             else:
                 return sum(
                     [
-                        recurse(layout.field(n), row_arrays, col_names + (n,))
+                        recurse(
+                            layout.field(n)[: len(layout)],
+                            row_arrays,
+                            col_names + (n,),
+                        )
                         for n in layout.keys()
                     ],
                     [],
@@ -5299,7 +5303,9 @@ or
         elif isinstance(layout, ak.layout.RecordArray):
             return sum(
                 [
-                    recurse(layout.field(n), row_arrays, col_names + (n,))
+                    recurse(
+                        layout.field(n)[: len(layout)], row_arrays, col_names + (n,)
+                    )
                     for n in layout.keys()
                 ],
                 [],
